@@ -28,6 +28,13 @@ def gen_files(rep, d, tier, seed):
     open(gen, "w").close()
     r0 = core.tlc("MC_Oasis", "MC_OasisThm.cfg", d, workers=8, tag="oasis-thm", heap="6g")
     rep.add_model("oasis-theorems(generated file decodes to the machine's layout; legal; parser agrees)", r0)
+    if tier == "thorough":
+        # the theorem also on every ordered pair of records (one palette salt)
+        render(os.path.join(core.SPEC, "MC_OasisThm2.cfg.in"), os.path.join(d, "MC_OasisThm2.cfg"),
+               SALTS=str(seed % 26))
+        r02 = core.tlc("MC_Oasis", "MC_OasisThm2.cfg", d, workers=16, tag="oasis-thm-pairs", heap="8g",
+                       timeout=6000)
+        rep.add_model("oasis-theorems(pairs: every generated two-record file decodes to the machine's layout)", r02)
     salts = list(range(26)) if tier == "thorough" else [seed % 26]
     render(os.path.join(core.SPEC, "MC_OasisPairs.cfg.in"), os.path.join(d, "MC_OasisPairs.cfg"),
            SALTS=", ".join(str(s) for s in salts))
